@@ -6,6 +6,28 @@ let ctype_ x = match atom x with
   | "linked" -> Linked | "permutation" -> Permutation | "unordered" -> Unordered | "norepl" -> UnorderedNorepl
   | s -> failwith ("ctype " ^ s)
 
+let q_ x = match lst x with [a; b] -> { qnum = z_ a; qden = pos_of_int (int_ b) } | _ -> failwith "q"
+(* integers here can exceed 63 bits (float.as_integer_ratio): read/write them as decimal strings through Z arithmetic *)
+let rec z_of_string s =
+  let neg = String.length s > 0 && s.[0] = '-' in
+  let s' = if neg then String.sub s 1 (String.length s - 1) else s in
+  let ten = z_of_int 10 in
+  let r = ref Z0 in
+  String.iter (fun c -> r := Z.add (Z.mul !r ten) (z_of_int (Char.code c - 48))) s';
+  if neg then Z.opp !r else !r
+let string_of_z z =
+  let ten = z_of_int 10 in
+  let rec go z acc = if z = Z0 then acc else
+    let (q, r) = Z.quotrem z ten in go q (string_of_int (int_of_z r) ^ acc) in
+  match z with Z0 -> "0" | Zpos _ -> go z "" | Zneg _ -> "-" ^ go (Z.opp z) ""
+let bigz_ x = z_of_string (atom x)
+let bigq_ x = match lst x with [a; b] -> (match bigz_ b with Zpos p -> { qnum = bigz_ a; qden = p } | _ -> failwith "q-den") | _ -> failwith "q"
+let w_bigq q = L [A (string_of_z q.qnum); A (string_of_z (Zpos q.qden))]
+let dom_ x = match lst x with
+  | [A "disc"; n] -> Disc (nat_ n)
+  | [A "cont"; lo; hi] -> Cont (bigq_ lo, bigq_ hi)
+  | _ -> failwith "dom"
+
 let dispatch (cmd : string) (args : sx list) : sx =
   match cmd, args with
   | "valid_idx_rows", [t; p; rows] ->
@@ -16,6 +38,10 @@ let dispatch (cmd : string) (args : sx list) : sx =
   | "pre_removed", [t; ns; p] ->
       w_list (w_pair w_nat (w_list w_nat)) (pre_removed (ctype_ t) (list_ nat_ ns) (bool_ p))
   | "count_max", [t; ns; p] -> w_nat (count_max (ctype_ t) (list_ nat_ ns) (bool_ p))
+  | "correct", [d; v] -> w_bigq (correct (dom_ d) (bigq_ v))
+  | "in_dom", [d; v] -> w_bool (in_dom (dom_ d) (bigq_ v))
+  | "canon", [d] -> w_bigq (canon (dom_ d))
+  | "set_value", [g; i; v] -> w_opt (w_list (w_pair w_nat w_bigq)) (set_value (list_ dom_ g) (nat_ i) (bigq_ v))
   | _ -> Dispatch2.dispatch cmd args
 
 let () =
